@@ -109,3 +109,11 @@ for _nm, _form in (("short", "short_tag"), ("long", "long_tag")):
              params={"self": "BaseInputConv", "hed_schema": "Opaque"}, returns=None, enc="native", self_class="BaseInputConv",
              ghost={"init": {"form_used": "''", "conversions": "0"}},
              ensures={f"C03.table.{_nm}_conversion_uses_{_form}": f"conversions == 1 and form_used == '{_form}'"})
+
+# C03 "every spelling ... resolves to the same canonical forms" also on the SECOND and every later conversion of a table: the wrapper keeps no
+# memory of what it did before (a remembered "already in this form" would skip cells rewritten since) - no attribute of the input object is written
+class_model("BaseInputConvState", {"_dataframe": "Opaque", "_mapper": "Opaque"})
+contract("C03.table_conversion_keeps_no_state", file="hed/models/base_input.py", func="BaseInput.convert_to_form",
+         params={"self": "BaseInputConvState", "hed_schema": "Opaque", "tag_form": "Opaque"}, returns="Opaque", enc="native",
+         self_class="BaseInputConvState", unwind="havoc", ghost={"pure": True, "not_at_call_sites": True}, ensures={},
+         assume=["df_util.convert_to_form rewrites the table in place (that is its documented effect); the object's own attributes are what is protected here"])
